@@ -1314,7 +1314,7 @@ impl UdpListenerSession {
                 log_context!(self),
                 e
             );
-            self.sessions.borrow_mut().slab.try_remove(upstream_token.0);
+            self.sessions.borrow_mut().release(upstream_token.0);
             // The flow is Established in the manager but has no usable upstream
             // socket: abort it so its `max_flows` slot frees now (FlowEvicted
             // balances the gauge) rather than squatting until idle timeout.
@@ -1609,7 +1609,7 @@ impl UdpListenerSession {
             // because the queue holds bytes, not flow-count state.
             self.upstream_write_queues.remove(&token);
             self.upstream_to_flow.remove(&token);
-            self.sessions.borrow_mut().slab.try_remove(token.0);
+            self.sessions.borrow_mut().release(token.0);
             // On close, all per-flow maps drop the flow together: neither
             // direction of the upstream-token map may still reference it.
             debug_assert!(
